@@ -1,1 +1,3 @@
 import Csverif.Model.Path
+import Csverif.Model.Storage
+import Csverif.Props.C09
